@@ -238,7 +238,7 @@ type hist struct {
 
 type stats struct {
 	arrivals, reads, readsData, writes, writesOK, lenSmall, lenBig, lenTiny, trailing, big int
-	cases                                                                                  int
+	cases, conc                                                                            int
 }
 
 func (h *hist) step(op string) {
@@ -278,6 +278,12 @@ var chunkCfg = []int{114, 256, 256, 512, 1024, 2048, 4096, 8192, 16384, 32768}
 // arrive injects one UDP datagram.  lenMode: 0 consistent, 1 smaller than the payload, 2 larger than
 // the IP payload, 3 below 8; trailing extra bytes after the datagram inside the IP payload.
 func (h *hist) arrive(nic, fam int, src []byte, sport, dport uint16, n int, lenMode int, trailing int, chunkMode int) {
+	h.arriveObs(nic, fam, src, sport, dport, n, lenMode, trailing, chunkMode, true)
+}
+
+// arriveObs: obs = false prints (-1) (-1) instead of rcvBufSize / queue length (concurrent readers
+// make them meaningless).
+func (h *hist) arriveObs(nic, fam int, src []byte, sport, dport uint16, n int, lenMode int, trailing int, chunkMode int, obs bool) {
 	id := h.newID()
 	payload := patBytes(id, n)
 	var dst []byte
@@ -359,7 +365,12 @@ func (h *hist) arrive(nic, fam int, src []byte, sport, dport uint16, n int, lenM
 		segs += " ++ " + netx.ZList(tr)
 	}
 	h.stats.arrivals++
-	h.step(fmt.Sprintf("HArrive %d %d %s %s %d (%s)", nic, fam, netx.ZList(src), netx.ZList(dst), first, segs))
+	op := fmt.Sprintf("HArrive %d %d %s %s %d (%s)", nic, fam, netx.ZList(src), netx.ZList(dst), first, segs)
+	if obs {
+		h.step(op)
+	} else {
+		h.out = append(h.out, fmt.Sprintf("St (%s) (-1) (-1)", op))
+	}
 }
 
 func (h *hist) read() {
@@ -750,6 +761,7 @@ func main() {
 	seed := flag.Uint64("seed", 1, "seed")
 	n := flag.Int("n", 300, "number of receive-side histories")
 	nbig := flag.Int("big", 12, "number of send-side boundary histories with sizes above 9000 (others always run)")
+	nconc := flag.Int("conc", 8, "number of concurrent reader/delivery histories")
 	flag.Parse()
 	w := bufio.NewWriterSize(os.Stdout, 1<<20)
 	defer w.Flush()
@@ -789,6 +801,10 @@ func main() {
 			genSend(r, st, w, c.size, c.variant)
 		}
 	}
+	for i := 0; i < *nconc; i++ {
+		genConc(r, st, w)
+	}
+	fmt.Fprintf(w, "# concurrent histories %d\n", st.conc)
 	fmt.Fprintf(w, "# cases %d; arrivals %d (length field smaller %d, larger %d, below 8 %d, trailing bytes %d); reads %d (with data %d); writes %d (ok %d, above 9000 bytes %d)\n",
 		st.cases, st.arrivals, st.lenSmall, st.lenBig, st.lenTiny, st.trailing, st.reads, st.readsData, st.writes, st.writesOK, st.big)
 }
